@@ -303,7 +303,8 @@ def diagnose_readback(kind, s, parsed, w, eq):
     """string(v) is a valid literal but the SUT does not read it back as an equal value."""
     if parsed["k"] in ("date", "dt") and 0 < abs(parsed["y"]) < 1000 and is_null(w):
         return "C14/year-below-1000-rejected"
-    if parsed["k"] in ("time", "dt") and jkind(w) == parsed["k"] and eq is False:
+    outside_chrono = parsed["k"] == "dt" and not CHRONO_MIN_YEAR + 1 <= parsed["y"] <= CHRONO_MAX_YEAR - 1
+    if parsed["k"] in ("time", "dt") and jkind(w) == parsed["k"] and (eq is False or (is_null(eq) and outside_chrono)):
         pw = cal.PARSERS[parsed["k"]](w[parsed["k"]])
         if pw[0] == "ok" and pw[1]["ns"] == parsed["ns"] - 1 and all(pw[1][x] == parsed[x] for x in parsed if x != "ns"):
             return "C14/fraction-binary-float-loss"
